@@ -221,8 +221,8 @@ func RaceWorker(seed uint64, tier string, shard, nshard int, out string) int {
 	rep := &WorkerReport{Stats: st}
 	known := map[string]*KnownHit{}
 	start := time.Now()
-	budget := budgetOverride(tierPick(tier, 25*time.Second, 8*time.Minute))
-	runs := tierPick(tier, 400, 40000)
+	budget := budgetOverride(tierPick(tier, 20*time.Second, 10*time.Minute))
+	runs := tierPick(tier, 1600, 400000)
 	var lastSize int64
 	reps := tierPick(tier, 3, 5)
 	for run := shard; run < runs; run += nshard {
